@@ -242,6 +242,7 @@ async def run(ctx) -> None:
                     new.append(f"{d} {B[1][d]}")
         chg = [d for d in A[1] if d in B[1] and A[1][d] != B[1][d]]
         lost = []
+        lost_keys = []
         reclassed = False
         for d in A[1]:
             if d not in B[1]:
@@ -249,6 +250,7 @@ async def run(ctx) -> None:
                     ctx.probe("dropped_on_restore_because_expired_by_then")
                 else:
                     lost.append(f"{d} {A[1][d]}")
+                    lost_keys.append(d)
                     parts = A[1][d].split(" # ")[0].split()
                     src = next((x for x in parts[2:6] if x[2:3] == ":" and x[:2] != "--"), None)
                     code = next((x for x in parts[5:8] if len(x) == 4 and ":" not in x), "")
@@ -287,7 +289,6 @@ async def run(ctx) -> None:
             listed = json.dumps(A[0])
             return bool(holders) and all(h.id != src and h.id not in listed for h in holders)
 
-        lost_keys = [x.split(" ", 1)[0] for x in lost]
         if lost or new or chg:
             kind = "lost" if lost else ("added" if new else "changed")
             def src_code(d):
@@ -295,7 +296,19 @@ async def run(ctx) -> None:
                 return (next((x for x in parts[2:6] if x[2:3] == ":" and x[:2] != "--"), None),
                         next((c for c in ("000A", "22C9") if c in parts[5:8]), None), A[1][d][4:6])
 
-            re_ctx = {src_code(d) for d in A[1] if merged_fragment(d)}  # fragments that a restore may put into another context ...
+            def safely(fn):  # a snapshot entry in an unexpected format (that is a finding of its own) must not break the classification
+                def wrapped(d):
+                    try:
+                        return fn(d)
+                    except Exception:  # noqa
+                        return False
+                return wrapped
+
+            merged_fragment, held_only_by_unlisted_addressee = safely(merged_fragment), safely(held_only_by_unlisted_addressee)
+            try:
+                re_ctx = {src_code(d) for d in A[1] if merged_fragment(d)}  # fragments that a restore may put into another context ...
+            except Exception:  # noqa
+                re_ctx = set()
             if not new and (lost or chg) and all(merged_fragment(d) or (src_code(d) in re_ctx and src_code(d)[1]) for d in lost_keys + chg):
                 kind = "array_fragment_merge"  # ... where they displace the packet that was there
             if kind == "lost" and reclassed:
